@@ -197,6 +197,33 @@ func runC17(e *Engine, r *Report, tier string) {
 	if nbad2 == 0 {
 		r.Ok("R2", "scope", "", fmt.Sprintf("%d functions scanned: no clock, randomness, env, goroutine or select", len(fns)))
 	}
+	// a package-level *big.Int (or other pointer-to-mutable number) used as the RECEIVER of a mutating method: big.Int's
+	// arithmetic writes into its receiver (`z.Sub(x, y)` sets z), so `zero.Sub(a, b)` on a shared "constant" changes it for
+	// every later user in this process (round-8 seed C17)
+	for _, fn := range fns {
+		fn := fn
+		allCalls(fn, func(c ssa.CallInstruction) {
+			f := c.Common().StaticCallee()
+			if f == nil || f.Signature.Recv() == nil || !strings.HasSuffix(namedTypeName(f.Signature.Recv().Type()), "math/big.Int") {
+				return
+			}
+			switch f.Name() {
+			case "Add", "Sub", "Mul", "Quo", "Div", "Mod", "Rem", "Exp", "Neg", "Abs", "Set", "SetInt64", "SetUint64", "SetBytes", "SetString", "Lsh", "Rsh", "And", "Or", "Xor", "Not", "Sqrt", "DivMod", "QuoRem", "SetBit", "ModInverse", "GCD":
+			default:
+				return
+			}
+			args := c.Common().Args
+			if len(args) == 0 {
+				return
+			}
+			if u, ok := args[0].(*ssa.UnOp); ok && u.Op == token.MUL {
+				if g, ok := u.X.(*ssa.Global); ok && g.Pkg != nil && strings.HasPrefix(g.Pkg.Pkg.Path(), ModPath) {
+					nglob++
+					r.Fail("R5", e.FnKey(fn)+" "+g.Name()+"."+f.Name(), e.InstrPos(c), "the package-level big.Int `"+g.Name()+"` is the receiver of "+f.Name()+", which stores its result in the receiver: the shared value changes for every later execution in this process (queries, simulations and restarts then change what transactions compute)")
+				}
+			}
+		})
+	}
 	if nglob == 0 {
 		r.Ok("R5", "scope", "", fmt.Sprintf("%d functions scanned: no package variable is written and no sync/atomic cell is updated during execution", len(fns)))
 	}
